@@ -258,7 +258,7 @@ class P(Prop):
                         for y in qr:
                             out.append({"kind": "poly", "X": [float(a[0]), float(b[0]), float(c[0])],
                                         "Y": [float(a[1]), float(b[1]), float(c[1])], "q": [float(x), float(y)]})
-        n = 60000 if big else 7000
+        n = 60000 if big else 12000
         streams = ["lattice"] * 10 + ["decimal"] * 6 + ["geo", "geo", "lambert", "nearaxis"]
         for k in range(n):
             out.append(self.random_case(rng, streams[k % len(streams)]))
@@ -301,6 +301,10 @@ class P(Prop):
         segment (forward: an extension; backward: folding back over it), or back to an earlier vertex"""
         p = pts[-1]
         kind = rng.choices(["oblique", "horizontal", "vertical", "zero", "collinear", "back"], weights=[10, 6, 4, 2, 2, 1])[0]
+        if stream == "nearaxis" and rng.random() < 0.2:
+            # a very short segment (below, at and above the 1e-16 threshold of proj_polyligne, up to 1e-3), any direction
+            dl = rng.choice([1e-17, 1e-16, 3e-16, 1e-14, 1e-12, 1e-9, 1e-6, 1e-3])
+            return (p[0] + rng.choice([-2, -1, 0, 1, 2]) * dl, p[1] + rng.choice([-2, -1, 0, 1, 2]) * dl)
         if kind == "collinear" and len(pts) >= 2 and pts[-2] != p:
             o = pts[-2]
             k = rng.choice([1.0, 2.0, 0.5, -0.5, -1.0, -2.0])
@@ -391,7 +395,8 @@ class P(Prop):
 
     def random_case(self, rng, stream):
         kind = rng.choices(["seg", "poly", "polyxy", "map", "proj", "mapt", "seq"], weights=[30, 40, 4, 20, 8, 10, 8])[0]
-        n = 2 if kind == "seg" else (rng.randint(6, 30) if rng.random() < 0.125 else rng.randint(2, 5))
+        r = rng.random()
+        n = 2 if kind == "seg" else (rng.randint(31, 120) if r < 0.0125 else rng.randint(6, 30) if r < 0.125 else rng.randint(2, 5))
         pts = self.rand_points(rng, stream, n)
         X, Y = [p[0] for p in pts], [p[1] for p in pts]
         if kind in ("seg", "poly", "polyxy"):
@@ -400,14 +405,17 @@ class P(Prop):
             q = self.rand_query(rng, stream, pts)
             if cont in INT_CONT and not all(float(v).is_integer() for v in X + Y):
                 cont = "npf"        # half-integer vertices (collinear steps): not representable in an integer container
+            qform = rng.choices(["float", "np", "int"], weights=[6, 2, 1])[0]
+            if qform == "int" and not all(float(v).is_integer() for v in q):
+                qform = "float"
             if kind == "seg":
-                return {"kind": "seg", "stream": stream, "cont": cont, "s": [X[0], Y[0], X[1], Y[1]], "q": q}
+                return {"kind": "seg", "stream": stream, "cont": cont, "qform": qform, "s": [X[0], Y[0], X[1], Y[1]], "q": q}
             if kind == "polyxy":
                 if rng.random() < 0.5:
                     Y = Y + [self.rand_xy(rng, stream)[1] for _ in range(rng.randint(1, 2))]
                 else:
                     Y = Y[:rng.randint(0, len(Y) - 1)]
-            return {"kind": kind, "stream": stream, "cont": cont, "X": X, "Y": Y, "q": q}
+            return {"kind": kind, "stream": stream, "cont": cont, "qform": qform, "X": X, "Y": Y, "q": q}
         coords = rng.choices(["ENU", "GEO", "ECEF"], weights=[1, 8, 0] if stream == "geo" else [6, 2, 1])[0]
         if kind == "seq":
             return self.random_seq(rng, stream, pts, coords)
@@ -499,10 +507,11 @@ class P(Prop):
     def describe(self, case):
         X, Y = self.poly_of(case)
         segs = segments(X, Y)
-        t = {"kind": case["kind"], "stream": case.get("stream", "enum"), "vertices": min(len(X), 6)}
+        t = {"kind": case["kind"], "stream": case.get("stream", "enum"), "vertices": len(X) if len(X) <= 5 else "6-30" if len(X) <= 30 else "31-120"}
         t["orient"] = "".join(sorted({("z" if degenerate(s) else "v" if s[0] == s[2] else "h" if s[1] == s[3] else "o") for s in segs}))
         if case["kind"] in ("seg", "poly", "polyxy"):
             t["container"] = case.get("cont", "list")
+            t["query"] = case.get("qform", "float")
         else:
             t["coords"] = case.get("coords", "ENU")
             t["altitudes"] = case.get("alt", "flat")
@@ -546,11 +555,14 @@ class P(Prop):
         self.release()
         k = case["kind"]
         cont = case.get("cont", "list")
+        if k in ("seg", "poly", "polyxy"):
+            qf = case.get("qform", "float")      # the query as Python floats, numpy scalars or Python ints
+            qx, qy = [(self.np.float64(v) if qf == "np" else int(v) if qf == "int" else float(v)) for v in case["q"]]
         if k == "seg":
-            d, xp, yp = self.g.proj_segment(self.container(case["s"], cont), case["q"][0], case["q"][1])
+            d, xp, yp = self.g.proj_segment(self.container(case["s"], cont), qx, qy)
             return {"d": float(d), "p": [float(xp), float(yp)]}
         if k in ("poly", "polyxy"):
-            d, xp, yp, i = self.g.proj_polyligne(self.container(case["X"], cont), self.container(case["Y"], cont), case["q"][0], case["q"][1])
+            d, xp, yp, i = self.g.proj_polyligne(self.container(case["X"], cont), self.container(case["Y"], cont), qx, qy)
             return {"d": float(d), "p": [float(xp), float(yp)], "i": int(i)}
         coords = case.get("coords", "ENU")
         C = self.C[coords]
@@ -837,6 +849,8 @@ class P(Prop):
                 yield {"kind": "poly", "X": case["X"], "Y": case["Y"], "q": case["q"]}
         if k in ("seg", "poly", "polyxy") and case.get("cont", "list") != "list":
             yield dict(case, cont="list")
+        if k in ("seg", "poly", "polyxy") and case.get("qform", "float") != "float":
+            yield dict(case, qform="float")
         if k == "polyxy" and len(case["Y"]) >= len(case["X"]):
             yield dict(case, kind="poly", Y=case["Y"][:len(case["X"])])
         if k in ("poly", "map", "proj"):
